@@ -196,8 +196,7 @@ func applyVariant(repo string, v variant) (string, error) {
 	if err != nil {
 		return "", err
 	}
-	cp := exec.Command("cp", "-r", repo+"/.", dir)
-	if out, err := cp.CombinedOutput(); err != nil {
+	if out, err := copyRepo(repo, dir); err != nil {
 		return dir, fmt.Errorf("copy: %v %s", err, out)
 	}
 	os.RemoveAll(filepath.Join(dir, ".git"))
@@ -379,7 +378,7 @@ func runStoredPatches(repo, verif, prop string) (string, []string) {
 				return
 			}
 			defer os.RemoveAll(dir)
-			if out, err := exec.Command("cp", "-r", repo+"/.", dir).CombinedOutput(); err != nil {
+			if out, err := copyRepo(repo, dir); err != nil {
 				outs[i].fail = fmt.Sprintf("%s: copy: %v %s", j.name, err, out)
 				return
 			}
@@ -477,4 +476,24 @@ func truncate(s string, n int) string {
 		return s[:n] + "..."
 	}
 	return s
+}
+
+// copyRepo copies the working tree (not .git: it is large, not analysed, and may change while it is copied).
+func copyRepo(repo, dir string) ([]byte, error) {
+	if _, err := exec.LookPath("rsync"); err == nil {
+		return exec.Command("rsync", "-a", "--exclude", ".git", repo+"/", dir+"/").CombinedOutput()
+	}
+	ents, err := os.ReadDir(repo)
+	if err != nil {
+		return nil, err
+	}
+	for _, e := range ents {
+		if e.Name() == ".git" {
+			continue
+		}
+		if out, err := exec.Command("cp", "-r", filepath.Join(repo, e.Name()), dir+"/").CombinedOutput(); err != nil {
+			return out, err
+		}
+	}
+	return nil, nil
 }
